@@ -38,7 +38,10 @@ func ntInjectMax(depth int, thorough bool) int {
 	return 100
 }
 
-func ntCap(depth int, thorough bool) int { return ntInjectMax(depth, thorough) + 60 }
+// ntTail is how many steps past the last injection point a non-terminating program keeps running.
+const ntTail = 60
+
+func ntCap(depth int, thorough bool) int { return ntInjectMax(depth, thorough) + ntTail }
 
 const termCap = 4000 // a terminating program of this generator never needs more steps
 
@@ -508,16 +511,14 @@ const followUpExpected = "ok:s:120,0,10,fin,x,101,102,a,w,global,undefined,undef
 func (s *session) followUp(before string) string {
 	vm := s.vm
 	vm.Interrupt = nil
-	stepGuard := 0
+	s.h.exitSeen = false
 	otto.VerifSetStepHook(vm, func(n int) {
-		stepGuard = n
 		if n > termCap {
 			runtime.Goexit()
 		}
 	})
 	out := guarded(func() (otto.Value, error) { return vm.Run(followUpScript) })
 	otto.VerifSetStepHook(vm, nil)
-	_ = stepGuard
 	res := out.outcome(nil)
 	sc, lb := otto.VerifRestState(vm)
 	if sc != 0 || lb != 0 {
